@@ -24,6 +24,7 @@ import (
 	"gopkg.in/yaml.v3"
 
 	"rcproxy/core/pkg/logging"
+	"rcproxy/core/vhook"
 )
 
 type AuthIp struct {
@@ -113,6 +114,7 @@ func (a *AuthIp) parseAuthIp() error {
 	}
 
 	IpMap.enable = auth.Enable
+	vhook.Point("authip.afterEnable")
 
 	if !IpMap.enable {
 		return nil
